@@ -364,7 +364,8 @@ def cmp_site(mo, ro, conv, exact):
 # ------------------------------------------------------------------ layer B: programs
 INT_N, STR_N, LIST_N, RT_N = ["va", "vb", "vc", "vd"], ["vs", "vt", "vu"], ["vp", "vq"], ["vm", "vr"]
 LOOPV = ["vi", "vj", "vk"]
-LOCAL_N = ["vx", "vy"]                 # locals of function bodies
+LOCAL_N = ["vx", "vy", "vz"]           # locals of function bodies (vx, vz: str; vy: int)
+TMP_PREFIX = "__tmp_assign_"           # the temporaries of a tuple assignment (the real transpiler's own names)
 ALLV = INT_N + STR_N + LIST_N + RT_N + LOOPV + LOCAL_N
 RT_PINS = {17: 5, 18: 1, 19: 0, 20: 2}
 STRS = ["", "x", "xy", "hello", "12", "abc def"]
@@ -374,7 +375,7 @@ class ProgGen:
     """env: transpile-time view {name: ('K', value) | ('M',)}; guarded=True keeps every program inside the guard of
     C03_env_fresh_partial (no write to a known name inside a block that may be skipped or repeated, ...)"""
 
-    def __init__(self, rng, guarded, maxdepth, tuples=False, flow=False, collide=False):
+    def __init__(self, rng, guarded, maxdepth, tuples=True, flow=False, collide=False):
         """flow=True: writes to names with a known transpile-time value are allowed inside blocks (the flow guard of
         Lang/ConstFlow.v); the generator keeps a set of names whose tracked constant may be stale (taint) and never
         folds those - the model's flow_ok decides in the end.  collide=True: for-loop variables may be named like a
@@ -523,17 +524,13 @@ class ProgGen:
                     env[x] = ("M",)
                     return ("aug", x, op, e)
                 continue
-            if q < 0.19 and depth == 0 and self.tuples and self.main_bound is None:
-                # tuple assignment to declared names (the temporaries path): all right-hand sides are evaluated first
-                xs = [x for x in self.bound(env, INT_N) if self.writable(env, x)]
-                if len(xs) >= 2:
-                    a, b = rng.sample(xs, 2)
-                    es = [b, a] if rng.random() < 0.5 else [self.int_expr(env), self.int_expr(env)]
-                    vs = [self.evalk(env, e) for e in es]
-                    if any(v[0] == "K" and not (0 <= v[1] <= 999) for v in vs):
-                        continue
-                    env[a], env[b] = vs
-                    return ("tuple", [a, b], es)
+            if q < 0.23 and self.tuples:
+                # tuple assignment: Python evaluates the whole right-hand side before any target is rebound (the firmware
+                # goes through temporaries); swaps and rotations of names whose tracked constants differ, a right-hand side
+                # that reads an EARLIER target of the same statement, followed by the fold sites that read the targets
+                t = self.tuple_stmt(env, depth)
+                if t:
+                    return t
                 continue
             r = rng.random()
             if r < 0.16:
@@ -611,7 +608,23 @@ class ProgGen:
                 xs = self.known(env, LIST_N)
                 xs = [x for x in xs if all(v is not None for v in env[x][1])]
                 if xs:
-                    return ("flash", rng.choice(xs))
+                    x = rng.choice(xs)
+                    if rng.random() < 0.6 and self.writable(env, x):
+                        # the pattern baked for THIS call is the list as it is now: mutate the list afterwards (append /
+                        # remove of constants), flash again
+                        pend = []
+                        for _ in range(rng.randint(1, 2)):
+                            if env[x][1] and rng.random() < 0.35:
+                                v = rng.choice(env[x][1]); env[x][1].remove(v)
+                                pend.append(("remove", x, str(v)))
+                            else:
+                                c = rng.choice([str(rng.randint(0, 9)), "1", "0", "255"] + self.levels(env))
+                                env[x][1].append(self.evalk(env, c)[1])
+                                pend.append(("append", x, c))
+                        if rng.random() < 0.7:
+                            pend.append(("flash", x))
+                        self.pending = (self.pending or []) + pend
+                    return ("flash", x)
                 if not self.guarded and rng.random() < 0.05 and self.bound(env, LIST_N):
                     return ("flash", rng.choice(self.bound(env, LIST_N)))
             elif depth < self.maxdepth:
@@ -662,13 +675,77 @@ class ProgGen:
                         if ms:
                             sx = rng.choice(ms)
                             a[0].extend([("assign", sx, f"f\"n{{{lv}}}\""), ("len", sx)])
-                        self.pending = pend
+                        self.pending = (self.pending or []) + [pend]
                         env[lv] = ("K", int(pend[2]))
                         self.taint.discard(lv)
                     return ("for", lv, a[0])
                 finally:
                     self.forbid.pop()
         return None
+
+    def tuple_stmt(self, env, depth):
+        rng = self.rng
+
+        def ok(x):
+            return x in env and self.writable(env, x) and (env[x][0] == "M" or x not in self.taint)
+        ints, strs = [x for x in INT_N if ok(x)], [x for x in STR_N if ok(x)]
+        kind = rng.choice(["swap", "swap", "rot", "rot", "self", "expr"])
+        xs = es = None
+        if kind in ("swap", "rot"):
+            n = 2 if kind == "swap" else 3
+            pools = [p for p in (ints, strs) if len(p) >= n]
+            if not pools:
+                return None
+            # prefer a pool where the tracked constants differ (that is where a target-by-target update shows)
+            pools.sort(key=lambda p: -len({repr(env[x]) for x in p}))
+            pool = pools[0] if rng.random() < 0.7 else rng.choice(pools)
+            xs = rng.sample(pool, n)
+            es = (xs[1:] + xs[:1]) if rng.random() < 0.5 else (xs[-1:] + xs[:-1])
+        elif kind == "self":
+            ks = [x for x in strs if env[x][0] == "K"]
+            if not ks or not ints:
+                return None
+            sx, iy = rng.choice(ks), rng.choice(ints)
+            se = rng.choice([f"{sx} + {rng.choice(STRS[1:])!r}", repr(rng.choice(STRS) + "pq"), f"{sx} + {sx} + 'z'"])
+            xs, es = [sx, iy], [se, f"len({sx})"]
+            if rng.random() < 0.3 and len(ks) >= 2:
+                # three targets: the last right-hand side reads BOTH earlier targets
+                s2 = rng.choice([x for x in ks if x != sx])
+                xs, es = [sx, s2, iy], [se, f"{s2} + 'w'", f"len({sx}) + len({s2})"]
+        else:
+            if len(ints) < 2:
+                return None
+            xs = rng.sample(ints, 2)
+            es = [self.int_expr(env), rng.choice([xs[0] + " + 1", self.int_expr(env)])]
+        vs = [self.evalk(env, e) for e in es]
+        if any(v[0] == "K" and isinstance(v[1], int) and not (0 <= v[1] <= 999) for v in vs):
+            return None
+        for x, v in zip(xs, vs):
+            env[x] = v
+            self.taint.discard(x)
+        # the consumers: every fold site that reads a target
+        pend = []
+        kstr = [x for x in xs if x in STR_N and env[x][0] == "K"]
+        kint = [x for x in xs if x in INT_N and env[x][0] == "K"]
+        for x in kstr:
+            if rng.random() < 0.8:
+                pend.append(("len", x))
+        if kint and rng.random() < 0.7:
+            rows = list(kint) + [rng.choice([str(rng.randint(0, 31))] + kint) for _ in range(8 - len(kint))]
+            pend.append(("glyph", rows[:8]))
+        lv = [x for x in kint if 0 <= env[x][1] <= 255]
+        ls = [p for p in self.known(env, LIST_N) if self.writable(env, p) and all(v is not None for v in env[p][1])]
+        if lv and ls and rng.random() < 0.5:
+            p = rng.choice(ls)
+            for x in lv:
+                env[p][1].append(env[x][1])
+                pend.append(("append", p, x))
+            pend.append(("flash", p))
+        for x in xs:
+            if rng.random() < 0.3:
+                pend.append(("val", x))
+        self.pending = (self.pending or []) + pend
+        return ("tuple", xs, es)
 
     def child(self, env):
         # a copy of the dict: same bindings, the same list objects
@@ -754,7 +831,7 @@ class ProgGen:
             if s:
                 out.append(s)
                 if self.pending:
-                    out.append(self.pending)
+                    out.extend(self.pending)
                     self.pending = None
                 if s[0] in ("if", "while", "for") and self.rng.random() < 0.7:
                     # look at what the block wrote: that is where a stale environment shows
@@ -804,7 +881,8 @@ class ProgGen:
                 pair = [(d, e, v), (d2, e2, self.evalk(env, e2))]
                 if rng.random() < 0.5:
                     pair.reverse()
-                pre.append(("tuple", [x for x, _, _ in pair], [y for _, y, _ in pair]))
+                # all targets are new at module level: the real transpiler declares them one by one, without temporaries
+                pre.append(("tuple", [x for x, _, _ in pair], [y for _, y, _ in pair], "new"))
                 for x, _, w in pair:
                     env[x] = w
                 pre.append(("val", d2))
@@ -979,7 +1057,8 @@ def def_cases(p, call_orcs):
     for st in p[idx + 1:]:
         if st[0] == "call":
             if k < len(call_orcs):
-                out.append([2, wire_prog(prefix), [q for q, _ in params], wire_prog(body), wire_prog(mid),
+                ctr = [0]
+                out.append([2, wire_prog(prefix, ctr), [q for q, _ in params], wire_prog(body, ctr), wire_prog(mid, ctr),
                             [W.enc_val(v) for v in st[3]], call_orcs[k]])
             k += 1
         elif st[0] != "def":
@@ -1004,7 +1083,12 @@ def has_def(p):
     return any(st[0] == "def" for st in p)
 
 
-def wire_prog(p):
+def wire_prog(p, ctr=None):
+    """tuple assignment: the model has it as the transpiler emits it - every right-hand side into a temporary
+    (__tmp_assign_k, k unique per program), then the targets from the temporaries (Lang/ConstTuple.tuple_assign, expanded by
+    the decoder of Wire/C03W.v; theorem C03_tuple_assign_is_simultaneous: that IS Python's simultaneous assignment) - except
+    where all targets are new at module level: there the real transpiler declares the names one by one, in order"""
+    ctr = [0] if ctr is None else ctr
     out = []
     for s in p:
         k = s[0]
@@ -1026,12 +1110,18 @@ def wire_prog(p):
             out.append([3, 3, s[1]])
         elif k == "aug":
             out.append([8, W.enc_src(f"{s[1]} {s[2]} ({s[3]})")])
+        elif k == "tuple":
+            if len(s) > 3 and s[3] == "new":
+                out += [[0, x, W.enc_src(e)] for x, e in zip(s[1], s[2])]
+            else:
+                out.append([9, ctr[0], list(s[1]), [W.enc_src(e) for e in s[2]]])
+                ctr[0] += len(s[1])
         elif k == "if":
-            out.append([5, wire_prog(s[1]), wire_prog(s[2])])
+            out.append([5, wire_prog(s[1], ctr), wire_prog(s[2], ctr)])
         elif k in ("while", "main"):
-            out.append([6, wire_prog(s[1])])
+            out.append([6, wire_prog(s[1], ctr)])
         elif k == "for":
-            out.append([7, s[1], wire_prog(s[2])])
+            out.append([7, s[1], wire_prog(s[2], ctr)])
     return out
 
 
@@ -1232,6 +1322,94 @@ def impl_static(obs):
     return [["rt"] if o[0] == "rt" else o for o in obs]
 
 
+def flash_then_mutated(p):
+    """does the program flash a list and mutate the same list later (anywhere after, at any depth)?"""
+    flat = []
+
+    def walk(b):
+        for st in b:
+            if st[0] in ("flash", "append", "remove"):
+                flat.append((st[0], st[1]))
+            elif st[0] == "if":
+                walk(st[1]); walk(st[2])
+            elif st[0] in ("while", "main"):
+                walk(st[1])
+            elif st[0] == "for":
+                walk(st[2])
+            elif st[0] == "def":
+                walk(st[3])
+    walk(p)
+    seen = set()
+    for k, x in flat:
+        if k == "flash":
+            seen.add(x)
+        elif x in seen:
+            return True
+    return False
+
+
+def scenario_programs(rng, n):
+    """small programs built around one fold site each, systematically: (a) swap / rotation / self-reading tuple assignment
+    of tracked constants that differ, at module level, in a taken-or-not branch, in a for body, in a function body, then
+    every consumer (len, glyph row, append + flash_pattern); (b) list literal -> flash_pattern(name) -> append / remove of
+    constants (same block or a nested block) -> flash_pattern(name) again"""
+    out = []
+    for i in range(n):
+        kind = i % 6
+        m = rng.choice(RT_N)
+        pre = [("rt", m, rng.choice(sorted(RT_PINS)))]
+        if kind in (0, 1, 2):
+            k = rng.choice([2, 3])
+            if rng.random() < 0.5:
+                xs = rng.sample(STR_N, k)
+                vals = rng.sample(STRS, k)
+                pre += [("assign", x, repr(v)) for x, v in zip(xs, vals)]
+                cons = [("len", x) for x in xs]
+            else:
+                xs = rng.sample(INT_N, k)
+                vals = rng.sample(range(0, 32), k)
+                pre += [("assign", x, str(v)) for x, v in zip(xs, vals)]
+                cons = [("glyph", (xs + ["0"] * 8)[:8]), ("assign", "vp", "[" + ", ".join(rng.choice(["0", "1", "7"]) for _ in range(rng.randint(1, 2))) + "]")]
+                cons += [("append", "vp", x) for x in xs] + [("flash", "vp")]
+            es = (xs[1:] + xs[:1]) if rng.random() < 0.5 else (xs[-1:] + xs[:-1])
+            tup = [("tuple", xs, es)] * rng.choice([1, 1, 2])
+            if kind == 0:
+                body = tup + cons
+            elif kind == 1:
+                # inside a branch: the fold sites of the branch read the swapped values; nothing folds them afterwards
+                body = [("if", tup + cons, [("val", m)] if rng.random() < 0.5 else [])]
+            else:
+                body = tup + [("for", "vi", cons[:1] + [("val", "vi")])] + cons
+            out.append(pre + body)
+        elif kind == 3:
+            # x, y = <new string>, len(x): the second right-hand side reads the OLD x
+            sx, iy = rng.choice(STR_N), rng.choice(INT_N)
+            v0, v1 = rng.sample(STRS, 2)
+            pre += [("assign", sx, repr(v0)), ("assign", iy, "0")]
+            order = rng.random() < 0.5
+            xs, es = ([sx, iy], [repr(v1 + "k"), f"len({sx})"]) if order else ([iy, sx], [f"len({sx})", repr(v1 + "k")])
+            out.append(pre + [("tuple", xs, es), ("val", iy), ("len", sx), ("glyph", [iy] + ["0"] * 7)])
+        else:
+            # flash, mutate, flash
+            p = rng.choice(LIST_N)
+            cur = [rng.choice([0, 1, 1, 255, rng.randint(0, 9)]) for _ in range(rng.randint(1, 4))]
+            body = [("assign", p, repr(cur)), ("flash", p)]
+            muts = []
+            for _ in range(rng.randint(1, 3)):
+                if cur and rng.random() < 0.35:
+                    v = rng.choice(cur); cur.remove(v); muts.append(("remove", p, str(v)))
+                else:
+                    v = rng.choice([0, 1, 255, rng.randint(0, 9)]); cur.append(v); muts.append(("append", p, str(v)))
+            if kind == 4:
+                body += muts + [("flash", p), ("len", p)]
+            else:
+                # the mutation sits in a nested block (the list object is shared with the block's copy of the environment);
+                # nothing folds the list afterwards
+                body += [rng.choice([("if", muts, []), ("if", [("val", m)], muts), ("for", "vi", muts[:1])])]
+            out.append(pre + body)
+    return out
+
+
 WITNESSES = {
     "F-C03-shared-list-append": {
         "prog": [("assign", "vp", "[1, 0]"), ("if", [("append", "vp", "1")], []), ("len", "vp"), ("flash", "vp")], "dr": [0], "ar": []},
@@ -1356,11 +1534,13 @@ def layer_b(ctx, stats):
         g = (i % 6) != 5
         progs.append(gen_def_program(rng, g))
         guarded.append(g)
-    # tuple assignment (not in the Coq model: no correspondence, only the oracle, on programs the generator keeps
-    # inside the guard by construction)
+    # straight-line programs dense in tuple assignments and flash / mutate / flash sequences (every program above may
+    # contain them too, at any depth)
     for i in range(n // 5):
-        progs.append(ProgGen(rng, True, 2, tuples=True).program(main=(i % 4 == 1)))
+        progs.append(ProgGen(rng, True, 1 if i % 2 else 2, flow=(i % 3 == 0)).program(main=(i % 4 == 1)))
         guarded.append(True)
+    progs += scenario_programs(rng, n // 7)
+    guarded += [True] * (len(progs) - len(guarded))
     def count(b, depth):
         for st in b:
             stats[f"stmt:{st[0]}@depth{depth}"] += 1
@@ -1377,7 +1557,7 @@ def layer_b(ctx, stats):
     progs, guarded, walks = [progs[i] for i in keep], [guarded[i] for i in keep], [walks[i] for i in keep]
     orcs, drs, ars, loops = [w[0] for w in walks], [w[1] for w in walks], [w[2] for w in walks], [w[4] for w in walks]
     real, scripts, n_sk = run_real(progs, drs, ars, batch=10 if thorough else 8, loops=loops)
-    modelled = [i for i, p in enumerate(progs) if not has_tuple(p)]
+    modelled = list(range(len(progs)))
     model = [None] * len(progs)
     dmodel = {}
     if ctx.exe:
@@ -1393,7 +1573,9 @@ def layer_b(ctx, stats):
         case = {"script": s, "dr4": None, "oracle": o}
         stats["prog:" + r["status"].split(":")[0]] += 1
         if has_tuple(p):
-            stats["prog:tuple-assignment (oracle only)"] += 1
+            stats["prog:with tuple assignment"] += 1
+        if flash_then_mutated(p):
+            stats["prog:flash_pattern(name) followed by a mutation of that list"] += 1
         fresh = g
         if m is not None:
             if m == [2]:
@@ -1442,8 +1624,10 @@ def layer_b(ctx, stats):
                     else:
                         stats["tie:def-static-equal"] += 1
                 # module level: which first assignments became static initialisers, which stayed in setup()
-                mg = [[C.wstr(x[0]), x[1]] for x in mglobals]
-                mt = [C.wstr(x) for x in mtops]
+                # the temporaries of a tuple assignment are locals of setup() in the real sketch; the model lists them like
+                # any other first assignment
+                mg = [[C.wstr(x[0]), x[1]] for x in mglobals if not C.wstr(x[0]).startswith(TMP_PREFIX)]
+                mt = [C.wstr(x) for x in mtops if not C.wstr(x).startswith(TMP_PREFIX)]
                 ig = [x[0][:-2] for x in r["static"].get("globals", []) if prog_name(x[0]) and x[0][:-2] in {n for n, _ in mg}]
                 it = [x[:-2] for x in r["static"].get("tops", []) if prog_name(x[5:] if x.startswith("decl:") else x)]
                 for nm, kind in mg:
